@@ -101,12 +101,12 @@ static void model_apply(Model & m, const Op & o, Outcome * out) {
 	case NEW: s = o.a; break;
 	case APPEND: s += o.a; break;
 	case APPEND_C: if (o.carg) s += o.carg; break;
-	case APPEND_ARR: if (o.len == NPOS) { s += o.a; r.oob = true; } else s += o.a.substr(0, o.len); break;
+	case APPEND_ARR: if (o.len == NPOS) { s += std::string(o.a.c_str()); r.oob = true; } else s += o.a.substr(0, o.len); break;
 	case APPEND_PF: s += fmt_model(o); break;
 	case PREPEND: s = o.a + s; break;
 	case INSERT: if (!o.a.empty()) s.insert(clampins(o.pos), o.a); break;
 	case INSERT_C: if (o.carg) s.insert(clampins(o.pos), 1, o.carg); break;
-	case INSERT_ARR: if (o.len == NPOS) { r.oob = true; if (!o.a.empty()) s.insert(clampins(o.pos), o.a); } else s.insert(clampins(o.pos), o.a.substr(0, o.len)); break;
+	case INSERT_ARR: if (o.len == NPOS) { r.oob = true; std::string c(o.a.c_str()); if (!c.empty()) s.insert(clampins(o.pos), c); } else s.insert(clampins(o.pos), o.a.substr(0, o.len)); break;
 	case INSERT_PF: { std::string f = fmt_model(o); if (!f.empty()) s.insert(clampins(o.pos), f); } break;
 	case ERASE:
 		if (o.pos > s.size()) { r.oob = true; break; }
@@ -119,7 +119,7 @@ static void model_apply(Model & m, const Op & o, Outcome * out) {
 		size_t L = o.len;
 		if (L == NPOS) { r.oob = true; L = (o.pos <= s.size()) ? s.size() - o.pos : 0; }
 		if ((u128)o.pos + (u128)L > (u128)s.size()) { r.copy_null = true; r.oob = true; }
-		else r.copy = s.substr(o.pos, L);
+		else r.copy = std::string(s.substr(o.pos, L).c_str());      // the result is a C string: it ends at the first NUL of a byte-array region
 	} break;
 	case REPLACE: {
 		if (o.pos > s.size()) { r.oob = true; break; }
@@ -200,7 +200,7 @@ static void sut_run(Sut & u, const Op & o, Model & after, const Outcome & r) {
 		CHECK(x->currentStringLength == m.size(), "recorded length differs from the model's length");
 		CHECK(memcmp(x->str, m.data(), m.size()) == 0, "buffer content differs from the model");
 		CHECK(x->str[x->currentStringLength] == 0, "buffer is not NUL-terminated at its recorded length");
-		CHECK(strlen(x->str) == m.size(), "strlen differs from recorded length");
+		if (m.find('\0') == std::string::npos) CHECK(strlen(x->str) == m.size(), "strlen differs from recorded length");
 		CHECK(x->currentStringBufferSize > x->currentStringLength, "capacity not larger than length");
 	}
 }
@@ -262,20 +262,28 @@ static Gen<std::string> payload() {
 		{1, gen::just(std::string())}});
 }
 
+// byte arrays are not C strings: they may hold NUL bytes (d_string_*_c_array take an explicit byte count)
+static Gen<std::string> arrayPayload() {
+	return gen::weightedOneOf<std::string>({
+		{5, payload()},
+		{2, gen::resize(8, gen::container<std::string>(gen::element<char>('a', 'b', '\0', '\0', 'c', '\xff')))}});
+}
+
 struct OpCmd : state::Command<Model, Sut> {
 	Op op;
 	explicit OpCmd(const Model & m) {
 		op.slot = *gen::weightedElement<int>({{6, 0}, {2, 1}, {1, 2}});
 		size_t len = m.s[op.slot].size();
 		op.kind = *gen::weightedElement<int>({{1, NEW}, {4, APPEND}, {2, APPEND_C}, {2, APPEND_ARR}, {2, APPEND_PF}, {2, PREPEND}, {4, INSERT}, {2, INSERT_C}, {3, INSERT_ARR}, {2, INSERT_PF}, {5, ERASE}, {4, COPY}, {5, REPLACE}});
+		if (op.kind == REPLACE && m.s[op.slot].find('\0') != std::string::npos) op.kind = ERASE;     // replace searches with strstr(): a C-string operation
 		switch (op.kind) {
 		case NEW: case APPEND: case PREPEND: op.a = *payload(); break;
 		case APPEND_C: op.carg = *gen::element<char>('a', 'z', 0, '\n', '\xff'); break;
-		case APPEND_ARR: op.a = *payload(); op.len = *gen::oneOf(gen::just(NPOS), gen::just(op.a.size()), gen::resize(60, gen::inRange<size_t>(0, op.a.size() + 1))); break;
+		case APPEND_ARR: op.a = *arrayPayload(); op.len = *gen::oneOf(gen::just(NPOS), gen::just(op.a.size()), gen::resize(60, gen::inRange<size_t>(0, op.a.size() + 1))); break;
 		case APPEND_PF: case INSERT_PF: op.fmt = *gen::resize(60, gen::inRange(0, 5)); op.b = *smallText(); op.iarg = *gen::arbitrary<int>(); op.farg = (*gen::resize(60, gen::inRange(-100000, 100000))) / 37.0; op.carg = *gen::element<char>('a', 'Z', '%'); if (op.kind == INSERT_PF) op.pos = *posGen(len); break;
 		case INSERT: op.a = *payload(); op.pos = *posGen(len); break;
 		case INSERT_C: op.carg = *gen::element<char>('a', 'z', 0, '\n'); op.pos = *posGen(len); break;
-		case INSERT_ARR: op.a = *payload(); op.pos = *posGen(len); op.len = *gen::oneOf(gen::just(NPOS), gen::just(op.a.size()), gen::resize(60, gen::inRange<size_t>(0, op.a.size() + 1))); break;
+		case INSERT_ARR: op.a = *arrayPayload(); op.pos = *posGen(len); op.len = *gen::oneOf(gen::just(NPOS), gen::just(op.a.size()), gen::resize(60, gen::inRange<size_t>(0, op.a.size() + 1))); break;
 		case ERASE: case COPY: op.pos = *posGen(len); op.len = *posGen(len); break;
 		case REPLACE: {
 			op.pos = *posGen(len); op.len = *posGen(len);
